@@ -565,6 +565,33 @@ static size_t get_value_size(carquet_physical_type_t type, int32_t type_length) 
 }
 
 /* ============================================================================
+ * Helper: page headers longer than the first read window
+ * ============================================================================
+ */
+
+/* A page header has no length field: it is parsed from a window that starts small.
+ * Headers can be longer (statistics holding long min/max values, fields of newer
+ * format versions): when the parse fails and more bytes are available, the window
+ * is widened and the parse repeated. */
+#define CARQUET_PAGE_HEADER_WINDOW_MAX ((size_t)16 << 20)
+
+static carquet_status_t parse_page_header_widening(
+    const uint8_t* data, size_t window, size_t avail,
+    parquet_page_header_t* page_header, size_t* header_size,
+    carquet_error_t* error) {
+
+    carquet_status_t status = parquet_parse_page_header(
+        data, window, page_header, header_size, error);
+    while (status != CARQUET_OK && window < avail &&
+           window < CARQUET_PAGE_HEADER_WINDOW_MAX) {
+        window = (window * 8 < CARQUET_PAGE_HEADER_WINDOW_MAX) ? window * 8 : CARQUET_PAGE_HEADER_WINDOW_MAX;
+        if (window > avail) window = avail;
+        status = parquet_parse_page_header(data, window, page_header, header_size, error);
+    }
+    return status;
+}
+
+/* ============================================================================
  * Helper: Load dictionary page (mmap path)
  * ============================================================================
  */
@@ -589,8 +616,8 @@ static carquet_status_t load_dictionary_page_mmap(
 
     parquet_page_header_t page_header;
     size_t header_size;
-    carquet_status_t status = parquet_parse_page_header(
-        header_ptr, window, &page_header, &header_size, error);
+    carquet_status_t status = parse_page_header_widening(
+        header_ptr, window, avail, &page_header, &header_size, error);
     if (status != CARQUET_OK) {
         return status;
     }
@@ -702,6 +729,37 @@ static bool file_read_at(carquet_column_reader_t* reader, int site, FILE* file, 
     return seek_ok;
 }
 
+/* fread counterpart of parse_page_header_widening: the first window (a stack buffer of the
+ * caller) did not hold the whole header; re-read a wider one into the reader's page buffer,
+ * which stays valid for as long as the parsed header may point into it. */
+static carquet_status_t reread_page_header_fread(
+    carquet_column_reader_t* reader, int site, FILE* file, int64_t offset,
+    size_t window, carquet_status_t status,
+    parquet_page_header_t* page_header, size_t* header_size,
+    carquet_error_t* error) {
+
+    size_t got = window;
+    while (status != CARQUET_OK && got == window &&
+           window < CARQUET_PAGE_HEADER_WINDOW_MAX) {
+        window = (window * 8 < CARQUET_PAGE_HEADER_WINDOW_MAX) ? window * 8 : CARQUET_PAGE_HEADER_WINDOW_MAX;
+        if (reader->page_buffer_capacity < window) {
+            uint8_t* grown = realloc(reader->page_buffer, window);
+            if (!grown) {
+                CARQUET_SET_ERROR(error, CARQUET_ERROR_OUT_OF_MEMORY, "Failed to allocate page header buffer");
+                return CARQUET_ERROR_OUT_OF_MEMORY;
+            }
+            reader->page_buffer = grown;
+            reader->page_buffer_capacity = window;
+        }
+        if (!file_read_at(reader, site, file, offset, reader->page_buffer, window, &got)) {
+            CARQUET_SET_ERROR(error, CARQUET_ERROR_FILE_SEEK, "Failed to seek to page header");
+            return CARQUET_ERROR_FILE_SEEK;
+        }
+        status = parquet_parse_page_header(reader->page_buffer, got, page_header, header_size, error);
+    }
+    return status;
+}
+
 /* ============================================================================
  * Helper: Load dictionary page (fread path)
  * ============================================================================
@@ -733,6 +791,10 @@ static carquet_status_t load_dictionary_page_fread(
     size_t header_size;
     carquet_status_t status = parquet_parse_page_header(
         header_buf, header_read, &page_header, &header_size, error);
+    if (status != CARQUET_OK && header_read == sizeof(header_buf)) {
+        status = reread_page_header_fread(reader, 0, file, dict_offset, sizeof(header_buf),
+                                          status, &page_header, &header_size, error);
+    }
     if (status != CARQUET_OK) {
         return status;
     }
@@ -860,8 +922,8 @@ static carquet_status_t load_next_page_mmap(
 
     parquet_page_header_t page_header;
     size_t header_size;
-    carquet_status_t status = parquet_parse_page_header(
-        header_ptr, window, &page_header, &header_size, error);
+    carquet_status_t status = parse_page_header_widening(
+        header_ptr, window, avail, &page_header, &header_size, error);
     if (status != CARQUET_OK) {
         return status;
     }
@@ -1116,6 +1178,10 @@ static carquet_status_t load_next_page_fread(
     size_t header_size;
     carquet_status_t status = parquet_parse_page_header(
         header_buf, header_read, &page_header, &header_size, error);
+    if (status != CARQUET_OK && header_read == sizeof(header_buf)) {
+        status = reread_page_header_fread(reader, 2, file, data_offset + reader->current_page,
+                                          sizeof(header_buf), status, &page_header, &header_size, error);
+    }
     if (status != CARQUET_OK) {
         return status;
     }
